@@ -332,6 +332,134 @@ fn hostile(rng: &mut Rng) -> String {
     evs.join(";")
 }
 
+/// Key reuse: 2..3 keys whose buffers see different numbers of arrivals and are freed in a chosen
+/// order (by completion, by an unfragmented datagram flushing them, or by their own expiry callback),
+/// possibly twice; then a new datagram starts arriving under one or two of the keys, and after each
+/// of its fragments EVERY callback armed so far (every epoch handed out for every key, all of them
+/// stale by now) is fired.  A premature discard shows as a removed buffer and as a missed completion.
+fn reuse(rng: &mut Rng) -> String {
+    stat("stream_reuse");
+    let nk = rng.range(2, 3) as usize;
+    let dst = 0x0a00_00feu32;
+    let srcs = [0x0a00_0001u32, 0x0a00_0002, 0x0a00_0003];
+    let mut evs: Vec<String> = vec![];
+    let mut recv_idx: Vec<usize> = vec![]; // event indices of all R events so far
+    let cull = |f: &Fr, rf: usize| -> String {
+        format!("C {} {} {} {} {} 0", u32::from(f.h.source), u32::from(f.h.destination), f.h.protocol, f.h.identification, rf)
+    };
+    let new_dgram = |rng: &mut Rng, k: usize| -> Fr {
+        let len = rng.range(49, 240) as usize; // 2..5 fragments at MTU 68
+        let h = mk_header(srcs[k], dst, 17, 0, 0, 0, (20 + len) as u16, 5, *rng.pick(&TTLS), rng.below(256) as u8, rng.below(65536) as u16);
+        Fr { h, body: rng.bytes(len) }
+    };
+    let rounds = rng.range(1, 2);
+    for _round in 0..rounds {
+        // arrivals that do not free the buffer, and the event(s) that do
+        let mut pre: Vec<Vec<Fr>> = vec![];
+        let mut ending: Vec<(u64, Fr)> = vec![]; // (kind, packet)   kind 0 complete, 1 flush, 2 cull, 3 left
+        // which key gets many arrivals
+        let heavy = rng.below(nk as u64) as usize;
+        for k in 0..nk {
+            let dg = new_dgram(rng, k);
+            let mut pieces = real_fragment(&dg, 68);
+            shuffle(rng, &mut pieces);
+            let last = pieces.pop().unwrap();
+            if pieces.is_empty() {
+                pieces.push(last.clone()); // cannot happen for len >= 49, kept for safety
+            }
+            // duplicates raise the epoch without completing
+            let ndup = if k == heavy { rng.range(3, 7) } else { rng.below(2) };
+            for _ in 0..ndup {
+                let p = rng.pick(&pieces).clone();
+                pieces.push(p);
+            }
+            let kind = match rng.below(10) { 0..=3 => 0, 4..=5 => 1, 6..=8 => 2, _ => 3 };
+            let pkt = match kind {
+                0 => last,
+                1 => {
+                    let blen = rng.range(1, 30) as usize;
+                    let b = rng.bytes(blen);
+                    Fr { h: mk_header(srcs[k], dst, 17, 0, 0, 0, (20 + b.len()) as u16, 5, 64, 0, 0), body: b }
+                }
+                _ => pieces[0].clone(),
+            };
+            stat(&format!("reuse_end_{}", ["complete", "flush", "cull", "left"][kind as usize]));
+            pre.push(pieces);
+            ending.push((kind, pkt));
+        }
+        // interleave the non-freeing arrivals
+        let mut pos = vec![0usize; nk];
+        let mut last_recv: Vec<Option<usize>> = vec![None; nk];
+        loop {
+            let live: Vec<usize> = (0..nk).filter(|&k| pos[k] < pre[k].len()).collect();
+            if live.is_empty() {
+                break;
+            }
+            let k = *rng.pick(&live);
+            last_recv[k] = Some(evs.len());
+            recv_idx.push(evs.len());
+            evs.push(ev_of(&pre[k][pos[k]]));
+            pos[k] += 1;
+        }
+        // free the buffers: the one with most arrivals first, last, or at random
+        let mut order: Vec<usize> = (0..nk).collect();
+        match rng.below(3) {
+            0 => order.sort_by_key(|&k| std::cmp::Reverse(pre[k].len())),
+            1 => order.sort_by_key(|&k| pre[k].len()),
+            _ => shuffle(rng, &mut order),
+        }
+        stat(if order[0] == heavy { "reuse_heavy_freed_first" } else if order[nk - 1] == heavy { "reuse_heavy_freed_last" } else { "reuse_heavy_freed_mid" });
+        for k in order {
+            match ending[k].0 {
+                0 | 1 => {
+                    recv_idx.push(evs.len());
+                    evs.push(ev_of(&ending[k].1));
+                }
+                2 => evs.push(cull(&ending[k].1, last_recv[k].unwrap())),
+                _ => {}
+            }
+        }
+    }
+    // the keys come into use again
+    let history: Vec<usize> = recv_idx.clone();
+    let hist_keys: Vec<String> = history.iter().map(|&i| evs[i].clone()).collect();
+    let mut reused: Vec<usize> = (0..nk).collect();
+    shuffle(rng, &mut reused);
+    reused.truncate(rng.range(1, 2) as usize);
+    for &k in &reused {
+        let dg = new_dgram(rng, k);
+        let mut pieces = real_fragment(&dg, 68);
+        shuffle(rng, &mut pieces);
+        if rng.coin(1, 3) {
+            let p = pieces[0].clone();
+            pieces.insert(1, p);
+        }
+        let drop_last = rng.coin(1, 5);
+        if drop_last {
+            pieces.pop();
+        }
+        let mut mine: Vec<usize> = vec![];
+        for p in &pieces {
+            mine.push(evs.len());
+            evs.push(ev_of(p));
+            // every callback armed before the re-use, for every key, and the stale ones of this buffer
+            for (hi, &rf) in history.iter().enumerate() {
+                let t: Vec<&str> = hist_keys[hi].split(' ').collect();
+                evs.push(format!("C {} {} {} {} {} 0", t[1], t[2], t[3], t[4], rf));
+            }
+            for &rf in &mine[..mine.len() - 1] {
+                evs.push(cull(p, rf));
+            }
+        }
+        if drop_last && rng.coin(1, 2) {
+            // nothing more arrives: the genuine callback discards the buffer
+            evs.push(cull(&pieces[0], *mine.last().unwrap()));
+        }
+        stat(if drop_last { "reuse_new_datagram_incomplete" } else { "reuse_new_datagram_completes" });
+    }
+    evs.join(";")
+}
+
 // ------------------------------------------------------------------ oracle
 
 type Key = (u32, u32, u8, u16);
@@ -355,11 +483,13 @@ fn key_of(t: &[&str]) -> Key {
 
 impl Family for Reasm {
     fn gen(rng: &mut Rng, idx: usize) -> String {
-        if idx % 5 == 4 {
-            hostile(rng)
-        } else {
-            stat("stream_structured");
-            structured(rng)
+        match idx % 20 {
+            4 | 9 | 14 | 19 => hostile(rng),
+            1 | 5 | 8 | 12 | 16 => reuse(rng),
+            _ => {
+                stat("stream_structured");
+                structured(rng)
+            }
         }
     }
 
